@@ -606,6 +606,23 @@ func main() {
 	b.WriteString("\n]\n\n")
 	sort.Strings(w.irregular)
 	def("irregularLocking", "List String", leanStrList(w.irregular))
+	// object pools: memory recycled through a sync.Pool changes owner without any access to a receiver field, which
+	// the lock/access table cannot see; every mention of the type in the concurrently used packages is reported
+	var pools []string
+	for _, fl := range [][]*ast.File{mapperF, fsmF, lruF, rrF, eventF, relayF, exporterF, registryF, listenerF, lineF} {
+		for _, f := range fl {
+			ast.Inspect(f, func(n ast.Node) bool {
+				if se, ok := n.(*ast.SelectorExpr); ok && se.Sel.Name == "Pool" {
+					if id, ok := se.X.(*ast.Ident); ok && id.Name == "sync" {
+						pools = append(pools, fmt.Sprintf("%s:%d", filepath.Base(fset.Position(se.Pos()).Filename), fset.Position(se.Pos()).Line))
+					}
+				}
+				return true
+			})
+		}
+	}
+	sort.Strings(pools)
+	def("syncPools", "List String", leanStrList(pools))
 	b.WriteString("\nend SE.Gen\n")
 	fmt.Print(b.String())
 }
